@@ -207,6 +207,134 @@ def make_case(ctx, rng, route, norb):
 def run(ctx):
     run_main(ctx)
     run_number_broken(ctx)
+    run_late_families(ctx)
+
+
+def run_late_families(ctx):
+    """two families added after sub-agent remarks (own random stream, so the older families keep theirs):
+    (a) operators that normal-order to a multiple of the identity - a SparseHamiltonian without operator strings -
+        evolve by the scalar phase alone, through every entry point;
+    (b) a spin-conserving one-body operator handed over as GSO / General / bare tensor tuple (2 norb x 2 norb matrix
+        without an alpha-beta block, degenerate spin blocks included) on Sz-conserving wavefunctions."""
+    import random
+    import props.C01 as C01
+    from openfermion import FermionOperator
+    fqe, d = ctx.fqe, ctx.driver
+    rng = random.Random(ctx.seed * 7919 + 17)
+    quick = ctx.tier == "quick"
+    small = lambda: rng.choice([-1, 1, 2, -2]) * rng.choice([0.25, 0.5, 1.0])
+    for case in range(8 if quick else 120):
+        norb = rng.choice([2, 3])
+        wk = rng.choice(["single", "multi", "spinbroken"])
+        w = C01.make_wfn(ctx, wk, norb, rng)
+        dets = U.wfn_dets(w)
+        psi = vec_of(w, dets)
+        m = rng.randrange(2 * norb)
+        kind = rng.choice(["identity", "anticommutator", "n-minus-n"])
+        if kind == "identity":
+            cval = small()
+            op = FermionOperator((), cval)
+        elif kind == "anticommutator":
+            cval = small()
+            op = FermionOperator(((m, 0), (m, 1)), cval) + FermionOperator(((m, 1), (m, 0)), cval)
+        else:
+            cval = 0.0
+            op = FermionOperator(((m, 1), (m, 0)), 0.5) - FermionOperator(((m, 1), (m, 0)), 0.5) + FermionOperator((), 0.0)
+        e0 = rng.choice([0.0, 0.7, -1.25])
+        t = rng.choice([0.13, -0.31, 1.1])
+        entry = rng.choice(["fermionop", "sparse", "sparse-inplace", "agu-taylor", "agu-cheb"])
+        desc = {"family": "constant-operator", "kind": kind, "norb": norb, "wfn": wk, "t": t, "e0": e0, "c": cval, "entry": entry, "case": case}
+        try:
+            if entry == "fermionop":
+                e0 = 0.0
+                out = w.time_evolve(t, op)
+            else:
+                ham = fqe.get_sparse_hamiltonian(op, conserve_spin=(wk != "spinbroken"), e_0=e0)
+                if entry == "sparse":
+                    out = w.time_evolve(t, ham)
+                elif entry == "sparse-inplace":
+                    out = copy.deepcopy(w).time_evolve(t, ham, inplace=True)
+                elif entry == "agu-taylor":
+                    out = w.apply_generated_unitary(t, "taylor", ham, accuracy=1e-12)
+                else:
+                    out = w.apply_generated_unitary(t, "chebyshev", ham, accuracy=1e-12, spec_lim=[cval + e0 - 1.0, cval + e0 + 1.0])
+        except Exception as exc:
+            ctx.case(None)
+            ctx.disagree(f"evolve-raises:constant-operator:{type(exc).__name__}", f"{entry} raised {type(exc).__name__}: {exc}", desc)
+            continue
+        ctx.case(("constant-operator", case), sample=desc if case < 2 else None)
+        ctx.count("route:constant-operator")
+        err = numpy.abs(vec_of(out, dets) - numpy.exp(-1j * t * (cval + e0)) * psi).max()
+        if err > 1e-9:
+            ctx.disagree("evolve:constant-operator", f"distance to exp(-it(c+e0)) psi = {err:.3e}", desc)
+    for case in range(10 if quick else 150):
+        norb = rng.choice([2, 2, 3])
+        wk = rng.choice(["single", "multi"])
+        w = C01.make_wfn(ctx, wk, norb, rng)
+        if case % 3 == 1:
+            w.scale(rng.choice([2.5, complex(0.2, -0.1)]))
+        dets = U.wfn_dets(w)
+        if len(dets) > 64:
+            continue
+        psi = vec_of(w, dets)
+        dim = 2 * norb
+        h1 = numpy.zeros((dim, dim), dtype=numpy.complex128)
+        real = rng.random() < 0.3
+        for s_ in range(2):
+            for i in range(norb):
+                for j in range(i, norb):
+                    if i == j:
+                        h1[s_ * norb + i, s_ * norb + i] = small()
+                    else:
+                        z = small() + (0 if real else 1j * small())
+                        h1[s_ * norb + i, s_ * norb + j], h1[s_ * norb + j, s_ * norb + i] = z, numpy.conj(z)
+        blocks = rng.choice(["different", "equal", "equal-diagonal-alpha"])
+        if blocks != "different":
+            h1[norb:, norb:] = h1[:norb, :norb]
+        if blocks == "equal-diagonal-alpha":
+            h1[norb:, norb:] = numpy.diag(numpy.diag(h1[:norb, :norb]))
+        if real:
+            h1 = h1.real.copy()
+        e0 = rng.choice([0.0, 0.7, -1.25])
+        t = rng.choice([0.13, -0.31, 0.5, 1.1])
+        entry = rng.choice(["gso", "general", "tuple"])
+        desc = {"family": "quadratic-spinorbital-on-sz-conserving", "norb": norb, "wfn": wk, "sectors": sorted(w.sectors()),
+                "t": t, "e0": e0, "blocks": blocks, "real": real, "entry": entry, "h1": [[[float(z.real), float(z.imag)] for z in row] for row in numpy.asarray(h1, dtype=numpy.complex128)], "case": case}
+        terms = U.spinorb_terms([h1.astype(numpy.complex128)], norb)
+        H = hmatrix(d, norb, dets, terms, e0)
+        want = expm(-1j * t * H) @ psi
+        try:
+            if entry == "gso":
+                ham = fqe.get_gso_hamiltonian((h1,), e_0=e0)
+                out = w.time_evolve(t, ham)
+            elif entry == "general":
+                ham = fqe.get_general_hamiltonian((h1,), e_0=e0)
+                out = w.time_evolve(t, ham)
+            else:
+                ham = None
+                e0 = 0.0
+                H = hmatrix(d, norb, dets, terms, e0)
+                want = expm(-1j * t * H) @ psi
+                out = w.time_evolve(t, (h1,))
+        except Exception as exc:
+            ctx.case(None)
+            ctx.disagree(f"evolve-raises:quadratic-so-szconserving:{type(exc).__name__}", f"{entry} raised {type(exc).__name__}: {str(exc)[:160]}", desc)
+            continue
+        ctx.case(("quadratic-so-sz", case), sample=desc if case < 2 else None)
+        ctx.count("route:quadratic-so-szconserving")
+        ctx.count(f"blocks:{blocks}")
+        got = vec_of(out, dets)
+        err = numpy.abs(got - want).max()
+        if err > 1e-8 * max(1.0, float(numpy.linalg.norm(psi))):
+            ctx.disagree(f"evolve:quadratic-so-szconserving:{entry}", f"distance to expm(-itH)psi = {err:.3e}", desc)
+            continue
+        if ham is not None:
+            try:
+                back = out.time_evolve(-t, ham)
+                if numpy.abs(vec_of(back, dets) - psi).max() > 1e-8 * max(1.0, float(numpy.linalg.norm(psi))):
+                    ctx.disagree("evolve:inverse:quadratic-so-szconserving", "-t does not undo t", desc)
+            except Exception as exc:
+                ctx.disagree(f"evolve-compose-raises:quadratic-so-szconserving:{type(exc).__name__}", str(exc)[:160], desc)
 
 
 def run_main(ctx):
